@@ -35,6 +35,16 @@ pub fn create(path: &str, set: &SampleSet, p: &Params) -> Result<()> {
 }
 
 pub fn create_with(path: &str, set: &SampleSet, p: &Params, opts: &DriveOpts) -> Result<()> {
+    create_logged(path, set, p, opts).0
+}
+
+/// Like `create_with`, under the guard (event log on, stuck-state detector armed); also returns
+/// the hook events of the run
+pub fn create_logged(path: &str, set: &SampleSet, p: &Params, opts: &DriveOpts) -> (Result<()>, Vec<crate::mon::Ev>) {
+    crate::mon::run_guarded(p.threads, || create_unguarded(path, set, p, opts))
+}
+
+fn create_unguarded(path: &str, set: &SampleSet, p: &Params, opts: &DriveOpts) -> Result<()> {
     // splitters come from the first input file (multi-file) or the first sample (single file);
     // with one sample per file these are the same contigs
     let ref_contigs: Vec<Vec<u8>> = set.samples[0].contigs.iter().map(|c| c.1.clone()).collect();
